@@ -72,7 +72,8 @@ def run_case(ctx, rng, index, casedir):
     sit = collections.Counter()
     viol = []
     g = rgfa.gen_rgfa(rng, size=rng.choice(["small", "medium", "medium"]), min_seg=1)
-    gpath = g.write(os.path.join(casedir, vary_name(rng, "g.gfa") + (".gz" if rng.random() < 0.2 else "")), rng=rng, shuffle=rng.random() < 0.5)
+    gpath = g.write(os.path.join(casedir, vary_name(rng, "g.gfa") + (".gz" if rng.random() < 0.2 else "")), rng=rng, shuffle=rng.random() < 0.5,
+                    with_seq=rng.random() >= 0.2)
     M.CTX["coords"] = rgaf.Coords(g)
     hi = 400 if ctx.tier == "quick" else rng.choice([400, 1500, 5000])
     nrec = rng.choice([1, 2, 3, rng.randint(4, 40), rng.randint(40, hi)])
